@@ -1813,6 +1813,7 @@ program_t *compile_file (int fd, const char *name, const char* pre_text) {
 
   static int guard = 0;
   program_t *prog;
+  error_context_t econ;
 
   /* The parser isn't reentrant.  On a few occasions (compile
    * errors, valid_override) LPC code is called during compilation,
@@ -1820,22 +1821,39 @@ program_t *compile_file (int fd, const char *name, const char* pre_text) {
    */
   if (guard)
     error ("Object cannot be loaded during compilation.\n");
+  if (!save_context (&econ))
+    error ("*Too deep recursion.\n");
   guard = 1;
 
-  opt_trace (TT_COMPILE|2, "starting compiling: \"%s\"", name);
-  prolog (name);
-  start_new_file (fd, pre_text); /* initalize the lexer */
+  if (setjmp (econ.context))
+    {
+      /* An error was raised from inside the compiler: the master's log_error() or
+       * valid_override() run under safe_apply(), but pushing their arguments can raise
+       * "Stack overflow".  The error has been reported; hand the parser back in a usable
+       * state and let the compilation fail like one with a syntax error - left as it is,
+       * the guard above would refuse every later compilation. */
+      restore_context (&econ);
+      num_parse_error++;
+      prog = epilog ();
+    }
+  else
+    {
+      opt_trace (TT_COMPILE|2, "starting compiling: \"%s\"", name);
+      prolog (name);
+      start_new_file (fd, pre_text); /* initalize the lexer */
 
-  /* start parsing */
-  opt_trace (TT_COMPILE|2, "parsing source...");
-  yyparse ();
+      /* start parsing */
+      opt_trace (TT_COMPILE|2, "parsing source...");
+      yyparse ();
 
-  /* code generation */
-  opt_trace (TT_COMPILE|2, "finished parsing.");
-  prog = epilog ();
+      /* code generation */
+      opt_trace (TT_COMPILE|2, "finished parsing.");
+      prog = epilog ();
 
-  if (prog)
-    opt_trace (TT_COMPILE|2, "finished compiling: \"%s\"", name);
+      if (prog)
+        opt_trace (TT_COMPILE|2, "finished compiling: \"%s\"", name);
+    }
+  pop_context (&econ);
   guard = 0;
   return prog;
 }
